@@ -435,7 +435,7 @@ func (m *Monitors) checkCallbacks(prev *vh.Snapshot, bi *BatchInfo, next *vh.Sna
 				continue
 			}
 			if prev.T[e.id] != nil {
-				m.violate("C05", "row:registration-task-preexisting", fmt.Sprintf("registration %s of %s was 'converted' into a task that existed before (%s)", e.id, pid, prev.T[e.id]))
+				m.violate("C05,C06", "row:registration-task-preexisting", fmt.Sprintf("registration %s of %s was 'converted' into a task that existed before (%s)", e.id, pid, prev.T[e.id]))
 				continue
 			}
 			if !bytes.Equal(t1.Recv, e.recv) || !jsonEq(t1.Mesg, e.mesg) || t1.Timeout != e.timeout || t1.Root != e.root || t1.Counter != 1 {
@@ -484,6 +484,21 @@ func (m *Monitors) checkTasks(prev *vh.Snapshot, bi *BatchInfo, next *vh.Snapsho
 			continue
 		}
 		if t0.String() == t1.String() {
+			if t0.State == 4 && t0.ProcessId != nil {
+				// a claimed task whose row this batch left alone: if the batch carried a heartbeat of its holder that came
+				// before the lease ran out, the lease had to move to that heartbeat plus ttl (the last one counts)
+				var hb *cmdRes
+				for i := range cmds {
+					if c := &cmds[i]; c.cmd.Kind == t_aio.HeartbeatTasks && c.cmd.HeartbeatTasks.ProcessId == *t0.ProcessId {
+						hb = c
+					}
+				}
+				if hb != nil {
+					if h := hb.cmd.HeartbeatTasks.Time; h < m.guar[id] && t < m.guar[id] && t1.ExpiresAt != h+t0.Ttl {
+						m.violate("C07", "row:timely-heartbeat-not-applied", fmt.Sprintf("a heartbeat of %s at %d (committed at tick %d, lease until %d) left the lease of %s at %d instead of %d", *t0.ProcessId, h, t, m.guar[id], t0, t1.ExpiresAt, h+t0.Ttl))
+					}
+				}
+			}
 			continue
 		}
 		if t0.SortId != t1.SortId || t0.Root != t1.Root || !bytes.Equal(t0.Recv, t1.Recv) || !bytes.Equal(t0.Mesg, t1.Mesg) || t0.Timeout != t1.Timeout || !i64Eq(t0.CreatedOn, t1.CreatedOn) {
@@ -1392,6 +1407,11 @@ func (m *Monitors) OnReturn(o *OpRec) {
 	case t_api.AcquireLock, t_api.ReleaseLock, t_api.HeartbeatLocks:
 		m.checkLockAck(o)
 	case t_api.CompleteTask:
+		if was, ok := o.Meta["finishedAtCall"]; ok && st != 20000 {
+			m.violate("C07,C02", "ack:completion-of-finished-task-not-acknowledged", fmt.Sprintf("op%d %s was answered %d although the task was already finished (state %v) when the request was made: a completion of a finished task is merely acknowledged", o.Idx, o.Req, st, was))
+		} else if ok {
+			m.hit("task.completion-of-finished-acknowledged")
+		}
 		// finished is absorbing: a completion acknowledged as done (201) or as already done (200) names a task
 		// that is finished in the stored state at the moment of the reply
 		if st == 20100 || st == 20000 {
